@@ -6,6 +6,7 @@ use crate::{
 use serde::{Deserialize, Serialize};
 use serde_with::serde_as;
 use std::collections::HashSet;
+use std::sync::Arc;
 
 #[derive(Debug, Clone, Serialize, Deserialize)]
 #[serde_as]
@@ -13,7 +14,8 @@ pub struct ProgramDetails {
     source: Option<String>,
     params: HashSet<String>,
     #[serde(skip_serializing, skip_deserializing)]
-    ast: Option<AstNode<Expr>>,
+    // shared, so that cloning a program does not walk the whole tree
+    ast: Option<Arc<AstNode<Expr>>>,
 }
 
 impl ProgramDetails {
@@ -31,7 +33,7 @@ impl ProgramDetails {
     }
 
     pub fn add_ast(&mut self, ast: AstNode<Expr>) {
-        self.ast = Some(ast);
+        self.ast = Some(Arc::new(ast));
     }
 
     pub fn add_source(&mut self, source: String) {
@@ -45,7 +47,7 @@ impl ProgramDetails {
     }
 
     pub fn ast<'a>(&'a self) -> Option<&'a AstNode<Expr>> {
-        self.ast.as_ref()
+        self.ast.as_deref()
     }
 
     pub fn source<'a>(&'a self) -> Option<&'a str> {
